@@ -59,6 +59,10 @@ type Case struct {
 	// more messages are outstanding than the producer's queues hold).
 	LogSuccesses bool `json:"log_successes,omitempty"`
 	SlowUs       int  `json:"slow_us,omitempty"`
+	// StallMs: the broker side stalls for this long when it takes record number StallAt (a leader
+	// election, a metadata refresh); it takes everything before and after at once.
+	StallAt int `json:"stall_at,omitempty"`
+	StallMs int `json:"stall_ms,omitempty"`
 	// LateProducer: PublishIPFIXMessages is started before the sarama producer is installed (it only
 	// needs one when the first message arrives); the producer is installed before any message is sent.
 	LateProducer bool `json:"late_producer,omitempty"`
@@ -166,6 +170,7 @@ func parseProto(b []byte) (map[int]uint64, map[int][]byte, error) {
 }
 
 func runCase(c Case) *ev.Failure {
+	stuckLimit := stuckLimit + time.Duration(c.StallMs)*time.Millisecond
 	var conv convertor.IPFIXToKafkaConvertor
 	var protoSchema func() proto.Message
 	if c.Schema == 2 {
@@ -194,7 +199,11 @@ func runCase(c Case) *ev.Failure {
 		}
 	}
 	for i := 0; i < total; i++ {
+		i := i
 		mp.ExpectInputWithMessageCheckerFunctionAndSucceed(func(pm *sarama.ProducerMessage) error {
+			if c.StallMs > 0 && i == c.StallAt {
+				time.Sleep(time.Duration(c.StallMs) * time.Millisecond)
+			}
 			if c.SlowUs > 0 {
 				time.Sleep(time.Duration(c.SlowUs) * time.Microsecond)
 			}
@@ -501,7 +510,11 @@ func TestC19(t *testing.T) {
 	for k := 0; k < 700; k++ {
 		big.Recs = append(big.Recs, []FieldVal{{Name: "sourceTransportPort", V: ref.Value{U: uint64(1 + k%60000)}}, {Name: "packetTotalCount", V: ref.Value{U: uint64(k) * 1000}}})
 	}
-	bigCases := []Case{{Schema: 1, Topic: "t", Msgs: []Msg{big}, LogSuccesses: true}, {Schema: 2, Topic: "t", Msgs: []Msg{big, big}, SlowUs: 500}, {Schema: 1, Topic: "t", Msgs: []Msg{big}, LogSuccesses: true, SlowUs: 200}}
+	bigCases := []Case{{Schema: 1, Topic: "t", Msgs: []Msg{big}, LogSuccesses: true}, {Schema: 2, Topic: "t", Msgs: []Msg{big, big}, SlowUs: 500}, {Schema: 1, Topic: "t", Msgs: []Msg{big}, LogSuccesses: true, SlowUs: 200},
+		{Schema: 1, Topic: "t", Msgs: []Msg{big}, StallAt: 10, StallMs: 4500}}
+	if rec.Thorough() {
+		bigCases = append(bigCases, Case{Schema: 2, Topic: "t", Msgs: []Msg{big, big}, StallAt: 600, StallMs: 12500}, Case{Schema: 1, Topic: "t", Msgs: []Msg{big}, StallAt: 300, StallMs: 33000})
+	}
 	bigFails := make([]*ev.Failure, len(bigCases))
 	var bw sync.WaitGroup
 	for k := range bigCases {
